@@ -1,4 +1,5 @@
 import HdModel.Spec.Timeout
+import HdModel.Props.Builder
 /-! # C19 — a request with a timeout resolves by its deadline (result part)
 
 Theorems about `Hd.Timeout.pollOnce/runPolls` (mirror of `TimeoutFuture::poll`) for **every**
